@@ -192,7 +192,7 @@ def import_from_node(node_id, network):
                      node_id, e)
         od = None
     finally:
-        network.unsubscribe(0x580 + node_id)
+        network.unsubscribe(0x580 + node_id, sdo_client.on_response)
     return od
 
 
